@@ -4,6 +4,7 @@ package main
 
 import (
 	"encoding/json"
+	"go/types"
 	"fmt"
 	"os"
 	"path/filepath"
@@ -12,6 +13,8 @@ import (
 	"strconv"
 	"strings"
 	"time"
+
+	"golang.org/x/tools/go/ssa"
 )
 
 type knownFinding struct {
@@ -124,6 +127,9 @@ func (m *Model) runCheck(prop, tier string, keep bool, timeout int) int {
 			allObls = append(allObls, o)
 		}
 		jobs = append(jobs, job{e, sel})
+	}
+	if prop == "C10" {
+		allObls = append(allObls, m.structuralC10()...)
 	}
 	// discharge, all functions in one pool
 	type task struct {
@@ -351,4 +357,63 @@ func standingAssumptions(assumed, hav []string) []string {
 
 func (m *Model) sourceHash() string {
 	return m.srcHash
+}
+
+// structuralC10: obligations decided on the SSA itself (DESIGN.md 4/C10): package state is written only
+// by the lazy prototype initialisers, nothing reachable in package lang calls a source of
+// nondeterminism, and Go maps are ranged over only in the functions whose contracts make the order
+// unobservable.
+func (m *Model) structuralC10() []*Obl {
+	var out []*Obl
+	add := func(name, src string, ok bool, detail string) {
+		st := "unsat"
+		if !ok {
+			st = "failed"
+		}
+		out = append(out, &Obl{Name: name, Kind: "structural", Props: []string{"C10"}, Status: st, Solver: "govc (SSA scan)", Output: detail, Func: "package lang", Src: src})
+	}
+	allowedWriter := map[string]string{"arrayPrototype": "getArrayPrototype", "objPrototype": "getObjPrototype", "strPrototype": "getStrPrototype", "numPrototype": "getNumPrototype"}
+	allowedRange := map[string]bool{"NewValue": true, "Value.toGoValueInterval": true, "Value.prettyStringInteral": true, "Evaluator.evalExpr": true, "Evaluator.evalCaseMatch": true, "Evaluator.evalStatement": true}
+	badPkgs := map[string]bool{"time": true, "math/rand": true, "math/rand/v2": true, "crypto/rand": true, "os": true, "runtime": true, "unsafe": true, "reflect": true, "sync": true}
+	var writes, ranges, calls []string
+	for _, name := range sortedKeys(m.funcs) {
+		f := m.funcs[name]
+		if f.Pkg == nil && f.Parent() == nil {
+			continue
+		}
+		pkg := f.Pkg
+		for p := f.Parent(); pkg == nil && p != nil; p = p.Parent() {
+			pkg = p.Pkg
+		}
+		if pkg == nil || pkg.Pkg.Name() != "lang" {
+			continue
+		}
+		isInit := f.Name() == "init" && f.Parent() == nil
+		for _, b := range f.Blocks {
+			for _, ins := range b.Instrs {
+				switch x := ins.(type) {
+				case *ssa.Store:
+					if g, ok := x.Addr.(*ssa.Global); ok && !isInit {
+						if allowedWriter[g.Name()] != name {
+							writes = append(writes, fmt.Sprintf("%s written in %s (%s)", g.Name(), name, m.fset.Position(x.Pos())))
+						}
+					}
+				case *ssa.Range:
+					if _, ok := x.X.Type().Underlying().(*types.Map); ok && !allowedRange[name] {
+						ranges = append(ranges, fmt.Sprintf("range over a map in %s (%s)", name, m.fset.Position(x.Pos())))
+					}
+				case *ssa.Go, *ssa.Select:
+					calls = append(calls, fmt.Sprintf("concurrency in %s (%s)", name, m.fset.Position(ins.Pos())))
+				case ssa.CallInstruction:
+					if c := x.Common().StaticCallee(); c != nil && c.Pkg != nil && badPkgs[c.Pkg.Pkg.Path()] {
+						calls = append(calls, fmt.Sprintf("%s calls %s (%s)", name, c.String(), m.fset.Position(ins.Pos())))
+					}
+				}
+			}
+		}
+	}
+	add("package lang#structural:package-state-written-only-by-prototype-initialisers", "no package-level variable of package lang is assigned outside init, except each prototype singleton by its own lazy initialiser", len(writes) == 0, strings.Join(writes, "\n"))
+	add("package lang#structural:maps-ranged-only-where-order-is-unobservable", "range over a Go map occurs only in NewValue, toGoValueInterval, prettyStringInteral, evalExpr, evalCaseMatch, evalStatement (whose contracts collect+sort keys or build maps)", len(ranges) == 0, strings.Join(ranges, "\n"))
+	add("package lang#structural:no-nondeterminism-source", "package lang starts no goroutine and calls nothing in time, math/rand, crypto/rand, os, runtime, reflect, unsafe, sync", len(calls) == 0, strings.Join(calls, "\n"))
+	return out
 }
